@@ -116,6 +116,10 @@ def run(s):
 
     # ---------------- 5. bounded end-to-end re-presentations
     representations(s)
+    if s.tier == "thorough":
+        from vf import lean
+        s.oblige("C13.lemmas.FiniteSums(lean)", lambda: lean.check_file("lemmas/FiniteSums.lean"), ["lemmas/FiniteSums.lean (sum rules: linearity, congruence, combination, "
+                                                                                                     "positivity, permutation, weight scaling)"])
     s.min_obligations = 7
 
 
